@@ -4,6 +4,7 @@ import (
 	"encoding/json"
 	"fmt"
 	"hash/crc64"
+	"math"
 	"math/rand"
 )
 
@@ -37,6 +38,12 @@ func (c Cfg) RefLayer(n uint64) int {
 			v = -v
 		}
 		return refUintLayer(uint64(v), uint64(c.BF))
+	case "i64w":
+		v := int64(n ^ (1 << 63))
+		if v < 0 {
+			v = -v // (MinInt64 stays MinInt64: as uint64 that is its magnitude 2^63)
+		}
+		return refUintLayer(uint64(v), uint64(c.BF))
 	case "str":
 		return refUintLayer(crc64.Checksum([]byte(strKey(n)), crcTab), uint64(c.BF))
 	case "strx":
@@ -48,7 +55,7 @@ func (c Cfg) RefLayer(n uint64) int {
 }
 
 var allBF = []uint{2, 3, 4, 16}
-var allKK = []string{"vk", "u64", "i64", "str", "bytes", "int", "uint", "sk", "skc", "strx"}
+var allKK = []string{"vk", "u64", "i64", "str", "bytes", "int", "uint", "sk", "skc", "strx", "i64w"}
 var allVK = []string{"u64", "bytes", "str", "ptr", "iface", "long", "nb", "esc", "np", "agg"}
 var allCache = []string{"none", "big", "tiny", "one"}
 
@@ -146,6 +153,33 @@ func Universe(r *rand.Rand, c Cfg, n int) []uint64 {
 				v = -v
 			}
 			add(uint64(v + i64bias))
+		case "i64w":
+			// small magnitudes of both signs (with the layer scheme of the other integer kinds), and
+			// the two ends of the int64 range: keys more than 2^63 apart
+			l := 0
+			for l < 4 && r.Intn(int(bf)) == 0 {
+				l++
+			}
+			v := int64(r.Intn(8*n) + 1)
+			for i := 0; i < l; i++ {
+				v *= int64(bf)
+			}
+			if r.Intn(2) == 0 {
+				v = -v
+			}
+			switch r.Intn(6) {
+			case 0:
+				v = math.MinInt64 + int64(r.Intn(4*n))
+			case 1:
+				v = math.MaxInt64 - int64(r.Intn(4*n))
+			case 2:
+				if v > 0 {
+					v += 6000000000000000000
+				} else {
+					v -= 6000000000000000000
+				}
+			}
+			add(uint64(v) ^ (1 << 63))
 		case "str", "sk", "skc", "strx":
 			add(uint64(r.Intn(26 * 26 * 26 * 26 * 26)))
 		case "bytes":
